@@ -40,6 +40,15 @@ def observe(s):
             state["depth"] -= 1
         calls[idx]["out"] = r[0]
         return r
+    orig_san = merger.sanitize_smiles
+    san = {"calls": 0, "double_open": 0, "double_close": 0}
+
+    def sanitize(sm, mask=None):
+        san["calls"] += 1
+        san["double_open"] += "((" in sm
+        san["double_close"] += "))" in sm
+        return orig_san(sm, mask)
+    merger.sanitize_smiles = sanitize
     mono.MolToSmiles = m2s
     mono.Monomer.to_smiles = ts
     merger.Merger.merge_int = mi
@@ -57,6 +66,7 @@ def observe(s):
         mono.MolToSmiles = orig_m2s
         mono.Monomer.to_smiles = orig_ts
         merger.Merger.merge_int = orig_mi
+        merger.sanitize_smiles = orig_san
     if not calls or "out" not in calls[0]:
         return None
     by_node = {c["node"]: c for c in calls}
@@ -72,7 +82,7 @@ def observe(s):
     def build_obs(n):
         c = by_node[n]
         return {"shifted": c["shifted"] or "", "kids": [build_obs(k) for k in c["kids"] if k in by_node]}
-    return {"tree": build(0), "observed": build_obs(0), "out": calls[0]["out"], "n": len(calls)}
+    return {"tree": build(0), "observed": build_obs(0), "out": calls[0]["out"], "n": len(calls), "sanitize": san}
 
 
 def run(rep, tier, driver, iupacs, wellformed=False):
@@ -88,6 +98,15 @@ def run(rep, tier, driver, iupacs, wellformed=False):
         keep.append((s, o))
     answers = driver.ask_many(reqs)
     obs_answers = driver.ask_many([{"op": "observed", "tree": o["observed"], "out": o["out"]} for _, o in keep])
+    # which rules of sanitize_smiles were exercised: the '))' rule is sound for every string (sanitize_rr_sound), the '((' rule is not
+    # (sanitize_ll_counterexample) and must never be needed
+    san_tot = {"calls": 0, "double_open": 0, "double_close": 0}
+    for s, o in keep:
+        for k in san_tot:
+            san_tot[k] += o.get("sanitize", {}).get(k, 0)
+        if o.get("sanitize", {}).get("double_open"):
+            rep.broken.append("sanitize_smiles was given a string with '((' while assembling %r: its '((' rule is not semantics-preserving" % s)
+    rep.extra["sanitize_rules_exercised"] = san_tot
     n_obs = 0
     obs_uncert = []
     for (s, o), a in zip(keep, obs_answers):
